@@ -2,6 +2,7 @@ package rules
 
 import (
 	"go/token"
+	"go/types"
 	"strings"
 
 	"golang.org/x/tools/go/ssa"
@@ -50,36 +51,96 @@ func ruleSummaryRendering(c *Ctx, rule string) {
 		c.R.Add(rule, "pkg:tree", "table[method]=1<<index", "-", false, "the method table is not filled during initialisation")
 	}
 
-	// (b) node summary builder: starts from 0, adds table[key] for every key unconditionally
+	// (b) node summary builder: the stored summary accumulates table[key] for every key of the handler map,
+	// unconditionally in the loop, starting from a value that does not depend on the old summary
 	b := a.NodeSummaryBuilder
-	var adds, zero ssa.Instruction
+	var add *ssa.BinOp
 	an.AllInstrs(b, func(in ssa.Instruction) {
-		base, field, val, ok := fieldStore(in, a.NodeT)
-		if !ok || base != "recv" || field != a.FSummary {
+		bo, ok := in.(*ssa.BinOp)
+		if !ok || bo.Op != token.ADD {
 			return
 		}
-		t := c.O.Of(val).String()
-		if t == "0" {
-			zero = in
-		}
-		if strings.HasPrefix(t, "binop<+>(recv."+a.FSummary+", lookup("+tableAP+", extract<1>(next(range(recv."+a.FHandlers+")))") {
-			adds = in
+		for _, opnd := range []ssa.Value{bo.X, bo.Y} {
+			if lk, isLk := opnd.(*ssa.Lookup); isLk && an.AP(lk.X) == tableAP && rangeKeyOf(lk.Index, "recv."+a.FHandlers) {
+				add = bo
+			}
 		}
 	})
-	goodB := adds != nil && zero != nil && unconditionalInLoop(adds) && an.DominatedByInstr(adds, func(x ssa.Instruction) bool { return x == zero })
-	c.R.Add(rule, c.fk(b), "summary=sum(table[key])-over-all-keys", c.P.Pos(b.Pos()), goodB, ifelse(goodB, "starts from zero and adds the bit of every key of the handler map, unconditionally", "the node summary is not the sum of the table bits of all handler-map keys (a key is skipped, or the sum does not start from zero): Allow/Methods() omit a served method or keep a removed one"))
+	goodB, whyB := false, "no accumulation of table[key] over the keys of the handler map"
+	if add != nil {
+		goodB, whyB = true, ""
+		if !unconditionalInLoop(add) {
+			goodB, whyB = false, "a key is skipped (the accumulation is conditional)"
+		}
+		// the accumulator: either the field itself (then a store of 0 must dominate the loop) or a loop phi whose
+		// entry value does not read the old summary
+		other := add.X
+		if _, isLk := other.(*ssa.Lookup); isLk {
+			other = add.Y
+		}
+		switch acc := other.(type) {
+		case *ssa.UnOp:
+			if base, isS := fieldLoadOf(acc, a.NodeT, a.FSummary); isS && base == "recv" {
+				zeroDom := an.DominatedByInstr(add, func(x ssa.Instruction) bool {
+					bb, ff, vv, ok := fieldStore(x, a.NodeT)
+					return ok && bb == "recv" && ff == a.FSummary && !strings.Contains(c.O.Of(vv).String(), "recv."+a.FSummary)
+				})
+				if !zeroDom {
+					goodB, whyB = false, "the sum does not start from a fresh value (the old summary leaks in)"
+				}
+			}
+		case *ssa.Phi:
+			for _, e := range acc.Edges {
+				if e == ssa.Value(add) {
+					continue
+				}
+				if strings.Contains(c.O.Of(e).String(), "recv."+a.FSummary) {
+					goodB, whyB = false, "the accumulator starts from the old summary"
+				}
+			}
+			// and the accumulated value is what gets stored
+			stored := false
+			an.AllInstrs(b, func(in ssa.Instruction) {
+				if bb, ff, vv, ok := fieldStore(in, a.NodeT); ok && bb == "recv" && ff == a.FSummary {
+					if strings.Contains(c.O.Of(vv).String(), "phi<"+acc.Name()+">") || vv == ssa.Value(acc) {
+						stored = true
+					}
+				}
+			})
+			if !stored {
+				goodB, whyB = false, "the accumulated value is not what is stored as the summary"
+			}
+		}
+	}
+	c.R.Add(rule, c.fk(b), "summary=sum(table[key])-over-all-keys", c.P.Pos(b.Pos()), goodB, ifelse(goodB, "accumulates the bit of every key of the handler map, unconditionally, from a fresh start", "the node summary is not the sum of the table bits of all handler-map keys: "+whyB+" — Allow/Methods() omit a served method or keep a removed one"))
 
 	// (c) renderer: ranges over the whole table, keeps a method iff its bit is set, joins with ", "
 	r := a.MemoBuilder
 	var keep ssa.Instruction
-	an.AllInstrs(r, func(in ssa.Instruction) {
-		if call, ok := builtinCall(in, "append"); ok {
-			t := c.O.Of(call.Args[len(call.Args)-1]).String()
-			if strings.Contains(t, "extract<1>(next(range("+tableAP+")))") {
-				keep = in
+	renderFuncs := []*ssa.Function{r}
+	for fn := range an.NewGraph(c.P).Reach([]*ssa.Function{r}, func(_ *ssa.Function, e an.Edge) bool { return e.Kind == "static" }) {
+		if fn != r {
+			renderFuncs = append(renderFuncs, fn)
+		}
+	}
+	intParam := func(fn *ssa.Function) string {
+		for _, p := range fn.Params {
+			if b, ok := p.Type().Underlying().(*types.Basic); ok && b.Kind() == types.Int {
+				return "param:" + p.Name()
 			}
 		}
-	})
+		return "param:?"
+	}
+	for _, fn := range renderFuncs {
+		an.AllInstrs(fn, func(in ssa.Instruction) {
+			if call, ok := builtinCall(in, "append"); ok {
+				t := c.O.Of(call.Args[len(call.Args)-1]).String()
+				if strings.Contains(t, "extract<1>(next(range("+tableAP+")))") {
+					keep = in
+				}
+			}
+		})
+	}
 	goodKeep := false
 	if keep != nil {
 		goodKeep = an.DominatedByEdge(keep, func(bb *ssa.BasicBlock, succ int) bool {
@@ -94,8 +155,9 @@ func ruleSummaryRendering(c *Ctx, rule string) {
 				}
 				bit := c.O.Of(and.Y).String()
 				idx := c.O.Of(and.X).String()
-				if !(strings.Contains(bit, "extract<2>(next(range("+tableAP+")))") && idx == "param:index") &&
-					!(strings.Contains(idx, "extract<2>(next(range("+tableAP+")))") && bit == "param:index") {
+				ip := intParam(keep.Parent())
+				if !(strings.Contains(bit, "extract<2>(next(range("+tableAP+")))") && idx == ip) &&
+					!(strings.Contains(idx, "extract<2>(next(range("+tableAP+")))") && bit == ip) {
 					return false
 				}
 				other := c.O.Of(bo.Y).String()
@@ -116,15 +178,17 @@ func ruleSummaryRendering(c *Ctx, rule string) {
 	}
 	c.R.Add(rule, c.fk(r), "render:keeps-method-iff-bit-set", c.P.Pos(r.Pos()), goodKeep, ifelse(goodKeep, "a method is rendered exactly when its bit is set in the summary", "the renderer does not keep a method exactly when its bit is set: the rendered set differs from the summary"))
 	okJoin, okStore := false, false
-	an.AllInstrs(r, func(in ssa.Instruction) {
-		if call, ok := calleeNamed(in, "strings.Join"); ok {
-			s, isS := strConst(call.Args[1])
-			okJoin = isS && s == ", "
-		}
-		if mu, ok := in.(*ssa.MapUpdate); ok && an.AP(mu.Map) == memoAP {
-			okStore = an.AP(mu.Key) == "p:index"
-		}
-	})
+	for _, fn := range renderFuncs {
+		an.AllInstrs(fn, func(in ssa.Instruction) {
+			if call, ok := calleeNamed(in, "strings.Join"); ok {
+				s, isS := strConst(call.Args[1])
+				okJoin = isS && s == ", "
+			}
+			if mu, ok := in.(*ssa.MapUpdate); ok && an.AP(mu.Map) == memoAP {
+				okStore = "param:"+strings.TrimPrefix(an.AP(mu.Key), "p:") == intParam(fn)
+			}
+		})
+	}
 	c.R.Add(rule, c.fk(r), "render:join(\", \")-stored-under-index", c.P.Pos(r.Pos()), okJoin && okStore, ifelse(okJoin && okStore, "the entry is the list joined with \", \", stored under the summary value", "the rendered entry is not the method list joined with \", \" stored under its own summary value"))
 
 	// (d) readers
@@ -214,6 +278,16 @@ func (c *Ctx) memoEntry(v ssa.Value, depth int) (node string, ok bool) {
 		g := an.StaticCallee(&x.Call)
 		if g == nil || !an.InModule(g) || len(g.Params) != 1 {
 			return "", false
+		}
+		// a method returning the memo entry of its receiver's summary
+		if g.Signature.Recv() != nil {
+			for _, r := range an.Returns(g) {
+				n2, ok2 := c.memoEntry(an.ReturnValue(r, 0), depth+1)
+				if !ok2 || n2 != "recv" {
+					return "", false
+				}
+			}
+			return an.AP(x.Call.Args[0]), true
 		}
 		// helper(index) returning memo[index] on every return
 		for _, r := range an.Returns(g) {
